@@ -108,8 +108,8 @@ pub struct SecondaryStorage {
     /// Indexes of the current storage engine
     indexes: Mutex<InMemoryIndexes>,
 
-    /// Serializes CREATE TABLE: the duplicate check, the manifest entry and the catalog update
-    /// must not interleave with those of another CREATE TABLE.
+    /// Serializes CREATE TABLE and DROP TABLE: the name check, the manifest entry and the catalog
+    /// update of one statement must not interleave with those of another.
     create_table_lock: Mutex<()>,
 }
 
